@@ -202,7 +202,9 @@ def main(argv=None) -> int:
                 violations.append(("structural", s))
 
     # ---------------------------------------------------------------- report
-    os.makedirs(os.path.join(VERIF, "replays", pid), exist_ok=True)
+    REPLAYS = os.environ.get("PYVC_REPLAY_DIR", os.path.join(VERIF, "replays"))
+    EVID = os.environ.get("PYVC_EVIDENCE_DIR", os.path.join(VERIF, "evidence"))
+    os.makedirs(os.path.join(REPLAYS, pid), exist_ok=True)
     printed = set()
     for k, o in known_hits:
         if k["id"] in printed:
@@ -213,7 +215,7 @@ def main(argv=None) -> int:
     seen_known = set()
     for key, o in violations:
         fn = re.sub(r"[^A-Za-z0-9_.-]+", "_", o["name"])[-150:]
-        path = os.path.join(VERIF, "replays", pid, fn + ".json")
+        path = os.path.join(REPLAYS, pid, fn + ".json")
         rep = o.get("replay") or {}
         json.dump({"property": pid, "obligation": o["name"], "clause": o.get("info"), "function": key, "path": o.get("path"),
                    "solver_model": o.get("model"), "native_replay": rep, "detail": o.get("detail"),
@@ -247,8 +249,8 @@ def main(argv=None) -> int:
         "assumptions": sorted(f"{k}: {v}" for k, v in assumed.items()) + structural.assumptions(pid),
         "wall_s": round(wall, 2), "violations": len(violations),
     }
-    os.makedirs(os.path.join(VERIF, "evidence"), exist_ok=True)
-    json.dump(evidence, open(os.path.join(VERIF, "evidence", f"{pid}.json"), "w"), indent=1, default=str)
+    os.makedirs(EVID, exist_ok=True)
+    json.dump(evidence, open(os.path.join(EVID, f"{pid}.json"), "w"), indent=1, default=str)
     print(f"{pid}: obligations={n_ob} discharged={n_ok} known={n_known} violations={len(violations)} undecided={len(undecided)} "
           f"functions={len(keys)} wall={wall:.1f}s")
     if broken:
